@@ -371,7 +371,8 @@ func genTree(r *rand.Rand, ps *ParamSpec, now0 int64) *Tree {
 		mainNodes = append(mainNodes, cur)
 	}
 	// forks
-	nf := r.Intn(5)
+	nf := 1 + r.Intn(4)
+	var forkBases []*Node
 	for f := 0; f < nf; f++ {
 		base := t.Nodes[0]
 		if r.Intn(8) != 0 {
@@ -403,6 +404,7 @@ func genTree(r *rand.Rand, ps *ParamSpec, now0 int64) *Tree {
 		if r.Intn(3) == 0 {
 			bad = r.Intn(l)
 		}
+		forkBases = append(forkBases, base)
 		c0 := base
 		for i := 0; i < l; i++ {
 			cor := ""
@@ -423,12 +425,22 @@ func genTree(r *rand.Rand, ps *ParamSpec, now0 int64) *Tree {
 			t.mine(r, bad, dtOf(), "", now0)
 		}
 	}
-	// checkpoints on the main chain (0-3), sometimes one on a competing valid block
-	ncp := []int{0, 0, 1, 2, 3}[r.Intn(5)]
+	// checkpoints on the main chain (0-3)
+	ncp := []int{0, 1, 1, 2, 3}[r.Intn(5)]
 	hs := map[int32]bool{}
 	var cps []*Node
 	for i := 0; i < ncp; i++ {
 		n := mainNodes[r.Intn(len(mainNodes))]
+		// prefer the main-chain block right above a fork point, so that
+		// forks just below a reached checkpoint occur
+		if len(forkBases) > 0 && r.Intn(2) == 0 {
+			fb := forkBases[r.Intn(len(forkBases))]
+			for _, m := range mainNodes {
+				if m.Parent == fb.ID {
+					n = m
+				}
+			}
+		}
 		if !hs[n.Height] {
 			hs[n.Height] = true
 			cps = append(cps, n)
@@ -510,7 +522,7 @@ func genOps(r *rand.Rand, t *Tree, v *env, nops int, now0 int64) []Op {
 	}
 	nextPeer := npeers + 1
 	nowOf := func() int64 {
-		switch r.Intn(10) {
+		switch r.Intn(20) {
 		case 0:
 			return now0 + 86400*3 // far ahead: chain looks stale
 		case 1:
@@ -537,8 +549,28 @@ func genOps(r *rand.Rand, t *Tree, v *env, nops int, now0 int64) []Op {
 		case x < 62: // headers
 			full := t.path(t.Nodes[0], st.leaf)
 			var seg []*Node
-			switch y := r.Intn(10); {
-			case y < 6: // continue after what was sent, chunked
+			switch y := r.Intn(20); {
+			case y < 11: // answer like a node would: the headers after the fork point with the client's chain
+				fork := t.Nodes[0]
+				for _, n := range full {
+					hh := n.Hash
+					if _, err := v.e.BS.HeightFromHash(&hh); err != nil {
+						break
+					}
+					fork = n
+				}
+				rest := t.path(fork, st.leaf)
+				if len(rest) == 0 { // the client has the whole branch: move on to a heavier leaf if there is one
+					st.leaf = leaves[r.Intn(len(leaves))]
+					continue
+				}
+				k := 1 + r.Intn(9)
+				if k > len(rest) {
+					k = len(rest)
+				}
+				seg = rest[:k]
+				st.sent = seg[len(seg)-1]
+			case y < 14: // continue after what was sent, chunked
 				rest := t.path(st.sent, st.leaf)
 				if len(rest) == 0 {
 					rest = full
@@ -549,11 +581,11 @@ func genOps(r *rand.Rand, t *Tree, v *env, nops int, now0 int64) []Op {
 				}
 				seg = rest[:k]
 				st.sent = seg[len(seg)-1]
-			case y < 8: // any sub-path of the peer's branch (duplicates, overlaps, gaps)
+			case y < 17: // any sub-path of the peer's branch (duplicates, overlaps, gaps)
 				a := r.Intn(len(full))
 				b := a + 1 + r.Intn(len(full)-a)
 				seg = full[a:b]
-			case y < 9: // switch to another leaf and send its whole branch tail
+			case y < 19: // switch to another leaf and send its whole branch tail
 				st.leaf = leaves[r.Intn(len(leaves))]
 				full = t.path(t.Nodes[0], st.leaf)
 				a := r.Intn(len(full))
@@ -645,7 +677,7 @@ func runHistory(id int, seed int64, nops int, base string, replay *History) (h H
 		ps.Checkpoints = cp
 	} else {
 		ps = ParamSpec{Bpr: int64(3 + r.Intn(6)), NoRetarget: r.Intn(5) < 2, ReduceMin: r.Intn(2) == 0,
-			Bip94: r.Intn(6) == 0, BipHeight: []int32{0, 0, 5}[r.Intn(3)], MemCap: []uint32{2, 3, 5, 8, 40, 0}[r.Intn(6)]}
+			Bip94: r.Intn(6) == 0, BipHeight: []int32{0, 0, 5}[r.Intn(3)], MemCap: []uint32{40, 48, 64, 0}[r.Intn(4)]}
 		t = genTree(r, &ps, now0)
 	}
 	params := mkParams(ps, t)
